@@ -47,6 +47,8 @@ def representations(a, rng, policy):
     integral = np.all(a.data == np.round(a.data))
     if integral:
         reps['csr_int'] = a.astype(int)
+        if a.nnz and 0 <= a.data.min() and a.data.max() < 128:
+            reps['csr_int8'] = a.astype(np.int8)
     if np.all(a.data == 1):
         reps['csr_bool'] = a.astype(bool)
     if policy == 'all':
@@ -256,6 +258,12 @@ def _entries():
     for mod in ('dugue', 'newman', 'potts'):
         est('Louvain(%s)' % mod, lambda mod=mod: clustering.Louvain(modularity=mod, shuffle_nodes=False, random_state=0), 'und', 5e-5)
         est('Leiden(%s)' % mod, lambda mod=mod: clustering.Leiden(modularity=mod, shuffle_nodes=False, random_state=0), 'und', 5e-5)
+    for cname, ctor in (('Louvain', clustering.Louvain), ('Leiden', clustering.Leiden)):
+        est('%s(aggregate only)' % cname, lambda ctor=ctor: ctor(shuffle_nodes=False, random_state=0, return_probs=False, return_aggregate=True), 'und', 5e-5)
+        est('%s(aggregate only,directed)' % cname, lambda ctor=ctor: ctor(shuffle_nodes=False, random_state=0, return_probs=False, return_aggregate=True), 'dir', 5e-5)
+        est('%s(unsorted,res=0.5)' % cname, lambda ctor=ctor: ctor(shuffle_nodes=False, random_state=0, sort_clusters=False, resolution=0.5, return_aggregate=True), 'dir', 5e-5)
+        est('%s(bipartite,aggregate only)' % cname, lambda ctor=ctor: ctor(shuffle_nodes=False, random_state=0, return_probs=False, return_aggregate=True), 'bip', 5e-5)
+    est('PropagationClustering(aggregate only)', lambda: clustering.PropagationClustering(return_probs=False, return_aggregate=True), 'und', 5e-5)
     est('Louvain(directed)', lambda: clustering.Louvain(shuffle_nodes=False, random_state=0), 'dir', 5e-5)
     est('Louvain(bipartite)', lambda: clustering.Louvain(shuffle_nodes=False, random_state=0), 'bip', 5e-5)
     est('PropagationClustering', lambda: clustering.PropagationClustering(), 'und', 5e-5)
@@ -364,7 +372,7 @@ def _graph(rng, kind):
             k = rng.choice(['path', 'cycle', 'star', 'grid', 'blocks', 'random_undirected', 'clique'] if kind == 'und_conn'
                            else graphs.UNDIRECTED_KINDS[:-1])
             es = graphs.structured(rng, k, n)
-            w = graphs.sym_weights(rng, es, rng.choice([[1], [1, 2, 3]]))
+            w = graphs.sym_weights(rng, es, rng.choice([[1], [1], [1, 2, 3]]))
             a = graphs.csr_from_edges(n, es, w)
             if kind == 'und_conn':
                 from scipy.sparse.csgraph import connected_components
@@ -373,13 +381,13 @@ def _graph(rng, kind):
         elif kind == 'dir':
             n = rng.randint(4, 10)
             es = graphs.structured(rng, rng.choice(graphs.DIRECTED_KINDS), n)
-            a = graphs.csr_from_edges(n, es, [rng.choice([1, 1, 2, 3]) for _ in es])
+            a = graphs.csr_from_edges(n, es, [1 for _ in es] if rng.random() < 0.5 else [rng.choice([1, 1, 2, 3]) for _ in es])
         else:
             nr, nc = rng.randint(3, 7), rng.randint(3, 7)
             if nr == nc:
                 nc += 1
             es = graphs.random_edges(rng, nr, 0.5, m=nc)
-            a = graphs.csr_from_edges(nr, es, [rng.choice([1, 1, 2]) for _ in es], m=nc)
+            a = graphs.csr_from_edges(nr, es, [1 for _ in es] if rng.random() < 0.5 else [rng.choice([1, 1, 2]) for _ in es], m=nc)
             if a.nnz and (np.diff(a.indptr).min() == 0 or np.diff(a.tocsc().indptr).min() == 0):
                 continue
         if a.nnz >= 3:
